@@ -986,4 +986,11 @@ theorem blankClause_of_not_image (fmt : Format) (d : Dataset) (sel : Option (Lis
   cases sel <;> simp [blankClause, h]
 
 
+/-- mapping over the enumerated list a function that ignores the position -/
+theorem zipIdx_map_fst {α β : Type} (l : List α) (f : α → β) :
+    (l.zipIdx.map fun p => f p.1) = l.map f := by
+  have h : l.map f = (l.zipIdx.map Prod.fst).map f := by rw [List.zipIdx_map_fst]
+  rw [h, List.map_map]
+  rfl
+
 end GlueVerif.Export.Lemmas
